@@ -16,7 +16,9 @@ RULE = ('(paths) every sign pattern x magnitude template of up to k fills (k<=4 
         'k<=6 thorough with {1,2,5}, 40 value draws each), values (prices log-U(0.01,1e4), commissions 0|U(0,50), '
         'marks) derived from VERIF_SEED and the path index, driven through a bare Position, the PositionHandler '
         '(episode restarts when flat) and a Portfolio; (random) Hypothesis-generated ladders of up to 80 fills '
-        'over 1-3 assets with re-marks interleaved, quantities biased to close/flip/re-open. Oracle in exact '
+        'over 1-3 assets with re-marks interleaved (with and without the optional timestamp), quantities biased to '
+        'close/flip/re-open, a quarter of the ladders with non-integer quantities >= 1 unit, a quarter with rebates '
+        '(negative commissions). Oracle in exact '
         'rationals over the fills of the current episode: total == realised + unrealised == market value - '
         'sum(price*qty) - sum(commission); unrealised == (mark - avg cost incl. open-side commission) * net; '
         'net == sum qty; a re-mark leaves realised/net/buy/sell quantities identical and moves unrealised by '
